@@ -67,8 +67,10 @@ class Check:
 
     # -- finishing ------------------------------------------------------
     def finish(self):
+        violated = any(o["verdict"] == "VIOLATED" for o in self.obligations)
         for rule, count, minimum in self.floors:
-            if count < minimum:
+            # a reported violation is not a vacuous pass: floors only guard runs that report nothing
+            if count < minimum and not violated:
                 raise AnalysisBroken("rule %s matched %d instances, confirmed minimum is %d "
                                      "(anchor moved or extractor blind)" % (rule, count, minimum))
         known = load_known()
